@@ -438,6 +438,13 @@ func (e *bigEnv) plain(v ssa.Value, at ssa.Instruction) *X {
 		if x.Op == token.NOT {
 			return Op("lnot", e.plain(x.X, at))
 		}
+		if x.Op == token.MUL {
+			if al, ok := x.X.(*ssa.Alloc); ok {
+				if v := singleStore(al); v != nil {
+					return e.plain(v, at)
+				}
+			}
+		}
 	case *ssa.BinOp:
 		if name, ok := canonBinOps[x.Op]; ok {
 			return Op(name, e.plain(x.X, at), e.plain(x.Y, at))
@@ -513,4 +520,44 @@ func bigGlobalConst(g *ssa.Global) *X {
 		return res
 	}
 	return L("global:" + g.Name())
+}
+
+// singleStore: the one value ever stored into a local cell (variables captured by closures are spilled to
+// such cells); nil if there are several stores or the cell's address escapes other than into closures/loads.
+func singleStore(al *ssa.Alloc) ssa.Value {
+	var v ssa.Value
+	n := 0
+	for _, u := range *al.Referrers() {
+		switch x := u.(type) {
+		case *ssa.Store:
+			if x.Addr == ssa.Value(al) {
+				v = x.Val
+				n++
+			}
+		case *ssa.UnOp, *ssa.MakeClosure, *ssa.DebugRef:
+		default:
+			return nil
+		}
+	}
+	if n == 1 {
+		// closures capturing the cell must not store to it
+		for _, u := range *al.Referrers() {
+			if mc, ok := u.(*ssa.MakeClosure); ok {
+				fn := mc.Fn.(*ssa.Function)
+				for i, b := range mc.Bindings {
+					if b != ssa.Value(al) {
+						continue
+					}
+					fv := fn.FreeVars[i]
+					for _, u2 := range *fv.Referrers() {
+						if st, ok := u2.(*ssa.Store); ok && st.Addr == ssa.Value(fv) {
+							return nil
+						}
+					}
+				}
+			}
+		}
+		return v
+	}
+	return nil
 }
